@@ -180,7 +180,10 @@ class Case:
     def build_engine(self):
         cloudsync.event.EventManager._provider_guard.clear()
         try:
-            self.cs = self.cs_class(tuple(self.prov), roots=self.roots, storage=self.storage, sleep=None)
+            kw = {}
+            if self.cfg.get("root_oids"):
+                kw["root_oids"] = tuple(LoggedMock.info_path(self.prov[s], self.roots[s]).oid for s in (LOCAL, REMOTE))
+            self.cs = self.cs_class(tuple(self.prov), roots=self.roots, storage=self.storage, sleep=None, **kw)
         except Exception as e:
             raise EngineCrash("constructing the sync engine raised %r" % (e,))
         self.cs.aging = self.cfg.get("aging", 0)
